@@ -769,6 +769,10 @@ func Trichotomy(c *core.Ctx, rule string, pkgs []*packages.Package, floor int) {
 				continue
 			}
 			forward := r1 == bc.a
+			// the closure of an order-reversing combinator (Reversed / Reverse) reports the mirrored sign on purpose
+			if bc.fb.Decl != nil && (bc.fb.Decl.Name.Name == "Reversed" || bc.fb.Decl.Name.Name == "Reverse") {
+				forward = !forward
+			}
 			if (sign < 0) == forward {
 				c.Add(rule, key, r.ret.Pos(), core.Discharged, "guarded by "+exprString(call))
 			} else {
